@@ -10,6 +10,7 @@ import (
 	"github.com/biogo/biogo/align"
 	"github.com/biogo/biogo/alphabet"
 	"github.com/biogo/biogo/seq"
+	"github.com/biogo/biogo/seq/alignment"
 	"github.com/biogo/biogo/seq/linear"
 	"pgregory.net/rapid"
 
@@ -178,11 +179,12 @@ func genCase(t *rapid.T) ax.Case {
 	if c.Affine() {
 		c.GapOpen = rapid.IntRange(-6, 0).Draw(t, "open")
 	}
+	ax.GenUsage(t, &c, pool, func(t *rapid.T) ax.MatSpec { return genMat(t) })
 	return c
 }
 
 func descClasses(c ax.Case) []string {
-	l := []string{c.Aligner}
+	l := append([]string{c.Aligner}, c.UsageClasses()...)
 	ps, _, err := c.Run()
 	if err == nil {
 		kinds := map[string]bool{}
@@ -272,7 +274,7 @@ type badCase struct {
 	Rows int     `json:"rows"` // matrix shape mutations
 }
 
-var badKinds = []string{"illegal-letter", "different-alphabets", "nil-alphabet", "ungapped-alphabet", "mixed-types", "ragged-matrix", "short-matrix", "empty-matrix", "short-row"}
+var badKinds = []string{"column-typed-sequence", "illegal-letter", "different-alphabets", "nil-alphabet", "ungapped-alphabet", "mixed-types", "ragged-matrix", "short-matrix", "empty-matrix", "short-row"}
 
 func checkBad(b badCase) *vlib.Failure {
 	c := b.C
@@ -317,6 +319,40 @@ func checkBad(b badCase) *vlib.Failure {
 		m = c.Mat.Build(alphabet.DNA.Len())
 	case "mixed-types":
 		q = mkSeq("q", qStr, alpha, !c.QLetters)
+	case "column-typed-sequence":
+		// a sequence type whose Slice is neither Letters nor QLetters: a one-row
+		// column-stored alignment (alphabet.Columns / alphabet.QColumns), on the
+		// reference side, the query side or both
+		mkCol := func(id, s string, quality bool) align.AlphabetSlicer {
+			if quality {
+				cols := make([][]alphabet.QLetter, len(s))
+				for i := range cols {
+					cols[i] = []alphabet.QLetter{{L: alphabet.Letter(s[i]), Q: 20}}
+				}
+				a, err := alignment.NewQSeq(id, []string{"row"}, cols, alpha, alphabet.Sanger, seq.DefaultQConsensus)
+				if err != nil {
+					panic("harness: " + err.Error())
+				}
+				return a
+			}
+			cols := make([][]alphabet.Letter, len(s))
+			for i := range cols {
+				cols[i] = []alphabet.Letter{alphabet.Letter(s[i])}
+			}
+			a, err := alignment.NewSeq(id, []string{"row"}, cols, alpha, seq.DefaultConsensus)
+			if err != nil {
+				panic("harness: " + err.Error())
+			}
+			return a
+		}
+		switch b.Bad % 3 {
+		case 0:
+			q = mkCol("q", qStr, b.Pos%2 == 1)
+		case 1:
+			r = mkCol("r", rStr, b.Pos%2 == 1)
+		default:
+			r, q = mkCol("r", rStr, b.Pos%2 == 1), mkCol("q", qStr, b.Pos%2 == 1)
+		}
 	case "ragged-matrix":
 		row := b.Rows % len(m)
 		m[row] = append(m[row], 0)
